@@ -178,6 +178,31 @@ def evaluate(r, trains, edges, name, kw, be, rank=()):
                     "multivariate value is not the mean of the pair distances / total "
                     "coincidences over total multiplicity", rank)
         return
+    # the same with an averaging sub-interval (second half / middle half of the recording)
+    T = te - ts
+    for iv in ([ts + T / 2, te], [ts + T / 4, te - T / 4]):
+        try:
+            Di = float(dist(sts, interval=iv, **kw))
+            if name == "sync":
+                cs = ms = 0.0
+                for q in pp.values():
+                    c_, m_ = q.integral(iv)
+                    cs += c_
+                    ms += m_
+                Die = cs / ms if ms > 0 else 1.0
+            else:
+                Die = sum(float(dist(sts[a], sts[b], interval=iv, **kw)) for a, b in pr) / npairs
+        except Exception as e:
+            r.violation(ID, "exception", be, "exception.interval/%s/%s/%s" % (name, be, cls),
+                        dict(case, interval=iv), "a number", "%s: %s" % (type(e).__name__, e),
+                        "multivariate distance with interval raised", rank)
+            return
+        if not abs(Di - Die) <= TOL:
+            r.violation(ID, "multi.scalar.interval", be,
+                        "multi.scalar.interval/%s/%s/%s" % (name, be, cls), dict(case, interval=iv),
+                        Die, Di, "multivariate value over a sub-interval is not the mean of the pair "
+                        "values / pooled ratio over that interval", rank)
+            return
     # matrix
     Me = np.zeros((n, n))
     for (a, b), v in pd.items():
